@@ -110,6 +110,7 @@ Fixpoint single_append (e : exp) : bool :=
   | Leaf (LTok _) | Leaf (LPat _) | Leaf (LConst _) | Leaf LDot | Leaf LEmpty => true
   | Call _ => true
   | Rep _ _ _ _ => true
+  | Assoc _ _ => true          (* the tree is merged from a scope of its own: last_node is the tree *)
   | Group e1 => single_append e1
   | Choice es => forallb single_append es
   | _ => false
